@@ -6,7 +6,9 @@
   no-overflow conditions of the interpolation, derived; `segFinite_statement` refuted as recorded) and Props/C19IeeeLipschitz.lean
   (the arc-length clause across segments on IEEE floats: `position_lipschitz_float32`). All in namespace Rosu.C19.
   no-overflow conditions of the interpolation, derived; `segFinite_statement` refuted as recorded) and
-  Props/C19DecodedLinear.lean (end to end for linear sliders: the hypotheses derived for the curve `Curve::new` computes). All in namespace Rosu.C19.
+  Props/C19DecodedLinear.lean (end to end for linear sliders: the hypotheses derived for the curve `Curve::new` computes) and
+  Props/C19IeeeFinal.lean (no overflow of the natural lengths: `linear_curve_position_err_float32` = the recorded full statement;
+  `position_lipschitz_float32_uncond`: no non-degeneracy hypothesis). All in namespace Rosu.C19.
 -/
 import RosuModel.Props.C19Curve
 import RosuModel.Props.C19Ieee
@@ -17,3 +19,4 @@ import RosuModel.Props.C19IeeeSearch
 import RosuModel.Props.C19IeeeFinite
 import RosuModel.Props.C19IeeeLipschitz
 import RosuModel.Props.C19DecodedLinear
+import RosuModel.Props.C19IeeeFinal
